@@ -3,6 +3,7 @@
 From Coq Require Import ZArith List.
 From Verif Require Import Lib.Params Lib.Octets Spec.Edwards Model.Outcome Model.BabyJub
   Proofs.CompressProofs.
+From Verif Require Proofs.GapC06.
 From Verif Require Gen.BigIntRoutines Proofs.BigIntEqCompress.
 Local Open Scope Z_scope.
 
@@ -59,6 +60,21 @@ Proof.
         (conj BigIntEqCompress.gen_babyjub_PointFromSignAndY_eq BigIntEqCompress.gen_babyjub_Point_Decompress_eq))))).
 Qed.
 
+(* ROOT ORACLE: math/big's ModSqrt may return either square root; the theorems hold for
+   EVERY oracle that returns some root when one exists (the model's Tonelli-Shanks is one) *)
+Theorem C06_any_root_oracle : forall msqrt, GapC06.root_oracle msqrt ->
+  (forall P, on_curve q ca cd P -> canonical q P -> GapC06.Decompress_gen msqrt (Compress P) = Ok P) /\
+  (forall b P, length b = 32%nat -> Forall is_byte b -> GapC06.Decompress_gen msqrt b = Ok P ->
+     on_curve q ca cd P /\ canonical q P /\ Compress P = b).
+Proof. intros ms H. exact (conj (GapC06.decompress_compress_gen ms H) (GapC06.decompress_sound_gen ms H)). Qed.
+
+Theorem C06_model_oracle_is_valid : GapC06.root_oracle modsqrt /\ GapC06.Decompress_gen modsqrt = Decompress.
+Proof. exact (conj GapC06.root_oracle_modsqrt GapC06.Decompress_gen_modsqrt). Qed.
+
+(* the "division by 0" branch of PointFromSignAndY is dead *)
+Theorem C06_division_branch_dead : forall y, 0 <= y < q -> A - (D * ((y * y) mod Q)) mod Q <> 0.
+Proof. exact GapC06.xb_never_zero. Qed.
+
 Print Assumptions C06_compress_spec.
 Print Assumptions C06_decompress_compress.
 Print Assumptions C06_decompress_sound.
@@ -67,3 +83,5 @@ Print Assumptions C06_decompress_total.
 Print Assumptions C06_rejects_big_y.
 Print Assumptions C06_rejects_no_point.
 Print Assumptions C06_model_is_the_source.
+Print Assumptions C06_any_root_oracle.
+Print Assumptions C06_division_branch_dead.
